@@ -40,9 +40,14 @@ pub(crate) fn run() -> Result<(), Error> {
 
     // Build the known dependencies of our primary target.  This *does* require
     // grabbing locks.
+    // These are dependencies of the primary target, not of the target whose
+    // script called us: do not let redo-ifchange record them against REDO_TARGET
+    // (which of them are rebuilt here depends on the order in which dirtiness
+    // happens to be discovered).
     let status = Command::new("redo-ifchange")
         .args(deps.iter().cloned())
         .env(ENV_NO_OOB, "1")
+        .env_remove("REDO_TARGET")
         .spawn()?
         .wait()?;
     if !status.success() {
